@@ -1,6 +1,8 @@
 import GridVerif.Props.C10
 import GridVerif.Props.C10.Gen
 import GridVerif.Props.C10.Ctor
+import GridVerif.Props.C10.Effects
+import GridVerif.Props.C10.Boundary
 
 #print axioms GridVerif.C10.inv_init
 #print axioms GridVerif.C10.inv_step
@@ -40,3 +42,11 @@ import GridVerif.Props.C10.Ctor
 #print axioms GridVerif.C10.gen_localgrid_of_query_inf
 #print axioms GridVerif.C10.gen_tree_args_exact
 #print axioms GridVerif.C10.gen_dispatch_pinned
+#print axioms GridVerif.C10.gen_setters_never_write_through
+#print axioms GridVerif.C10.gen_setter_frame
+#print axioms GridVerif.C10.gen_setter_rebinds
+#print axioms GridVerif.C10.gen_shared_weights_kept
+#print axioms GridVerif.C10.write_through_would_overwrite
+#print axioms GridVerif.C10.gen_boundary_point_included
+#print axioms GridVerif.C10.gen_closed_ball_3_4_5
+#print axioms GridVerif.C10.gen_closed_ball_radius_zero
